@@ -145,9 +145,17 @@ class PolicyTypeSurface(core.Surface):
         for t, n in ((ipaddress.IPv4Network, "net4"), (ipaddress.IPv6Network, "net6")):
             if isinstance(v, t):
                 return n + ":" + str(v)            # the range denoted, not only the kind
-        for t, n in ((int, "int"), (datetime.datetime, "datetime"), (bytes, "bytes"), (str, "str")):
-            if isinstance(v, t):
-                return n
+        # ... and for the other families the VALUE stored, not only its kind (the typed operand handed to the model by the other
+        # surfaces is read back from the implementation: audit finding A1 -- here it is checked against independent oracles)
+        if isinstance(v, int):
+            return "int:" + str(v)
+        if isinstance(v, datetime.datetime):
+            u = v if v.tzinfo is None else v.astimezone(datetime.timezone.utc)
+            return "datetime:" + ("naive:" if v.tzinfo is None else "utc:") + u.replace(tzinfo=None).isoformat()
+        if isinstance(v, bytes):
+            return "bytes:" + v.hex()
+        if isinstance(v, str):
+            return "str"
         return type(v).__name__
 
     def impl(self, x):
@@ -189,13 +197,21 @@ def gen_policy_typing(rng, table):
             txt = rng.choice([str(a), a.exploded, str(host) + "/" + str(plen), host.exploded.upper() + "/" + str(plen), str(host)])
             return txt, "net6:" + str(ipaddress.ip_network(txt, strict=False))
         if fam == "int":
-            v = rng.choice([0, 7, -3, 2 ** 40])
-            return rng.choice([v, str(v)]), "int"
+            v = rng.choice([0, 7, -3, 2 ** 40, 443])
+            return rng.choice([v, str(v)]), "int:" + str(v)
         if fam == "date":
-            return rng.choice(["2020-01-01T00:00:00Z", "2019-12-31T23:59:59+01:00", "2021-06-01T12:00:00", 1577836800]), "datetime"
+            import datetime as dt
+            txt, want = rng.choice([
+                ("2020-01-01T00:00:00Z", "utc:2020-01-01T00:00:00"), ("2019-12-31T23:59:59+01:00", "utc:2019-12-31T22:59:59"),
+                ("2021-06-01T12:00:00", "naive:2021-06-01T12:00:00"), (1577836800, "utc:2020-01-01T00:00:00"),
+                ("2030-01-01T00:00:00+05:30", "utc:2029-12-31T18:30:00"), ("2020-02-29 23:59:59.500000-08:00", "utc:2020-03-01T07:59:59.500000")])
+            return txt, "datetime:" + want
         if fam == "bool":
-            return rng.choice([True, False, "true", "FALSE"]), "bool"
-        return rng.choice(["QQ==", "YWJj", ""]), "bytes"
+            v = rng.choice([True, False, "true", "FALSE", "True", "false"])
+            return v, "bool"
+        import base64
+        txt = rng.choice(["QQ==", "YWJj", "", "AAEC/w==", "QmluYXJ5"])
+        return txt, "bytes:" + base64.b64decode(txt).hex()
     if fam != "bool" and rng.random() < 0.4:
         items = [one() for _ in range(rng.randint(1, 3))]
         return {"op": name, "fam": fam, "pol": [i[0] for i in items], "expect": [i[1] for i in items]}
